@@ -21,8 +21,9 @@ from harness.common import exc_name
 
 PID = "C14"
 TITLE = "Variables compose like functions and keep each variable's description"
-LEAN_MODULES = ["LenaModel.Props.C14"]
-LEAN_SOURCES = ["LenaModel/Model/C14.lean", "LenaModel/Lemmas/C14.lean", "LenaModel/Props/C14.lean"]
+LEAN_MODULES = ["LenaModel.Props.C14", "LenaModel.Props.C14Tok"]
+LEAN_SOURCES = ["LenaModel/Model/C14.lean", "LenaModel/Lemmas/C14.lean", "LenaModel/Props/C14.lean",
+                "LenaModel/Model/C14Tok.lean", "LenaModel/Lemmas/C14Tok.lean", "LenaModel/Props/C14Tok.lean"]
 DRIVER = "drivers/C14.lean"
 THEOREMS = [
     "Lena.C14.compose_eq_sequence",
@@ -57,6 +58,23 @@ THEOREMS = [
     "Lena.C14.getAttr_mkVariable",
     "Lena.C14.setAttr_reaches_context",
     "Lena.C14.combine_getitem",
+    "Lena.C14.mkVariable_wf",
+    "Lena.C14.mkComposeK_wf",
+    "Lena.C14.mkCombine_wf",
+    "Lena.C14.evalExpr_wf",
+    "Lena.C14.evalArgs_wf",
+    "Lena.C14.exprTypes_sub",
+    "Lena.C14.compose_eq_sequence_expr",
+    "Lena.C14.leavesOKb_sound",
+    "Lena.C14.namesOK2b_sound",
+    "Lena.C14.typesOKb_sound",
+    "Lena.C14.Tok.deepcopyT_spec",
+    "Lena.C14.Tok.callT_spec",
+    "Lena.C14.Tok.sepB_sound",
+    "Lena.C14.Tok.callT_variable_untouched",
+    "Lena.C14.Tok.callsT_variable_untouched",
+    "Lena.C14.Tok.callT_frame",
+    "Lena.C14.Tok.callT_erase",
 ]
 TRUSTED = [
     "Lean 4.33.0 kernel; axioms limited to propext, Classical.choice, Quot.sound (audited by #print axioms on every run)",
@@ -166,6 +184,11 @@ def _expr_strings(e, acc):
 
 def alphabet(case):
     acc = set(RESERVED)
+    if case.get("kind") == "tok":
+        _expr_strings(case["expr"], acc)
+        if case["val"].get("c") is not None:
+            _strings(case["val"]["c"], acc)
+        return sorted(acc)
     if case.get("kind") == "attr":
         _expr_strings(case["expr"], acc)
         for o in case["ops"]:
@@ -370,7 +393,7 @@ def _chain_model_requests(case):
     chain = [expr_to_model(e, names) for e in case["chain"]]
     fx = detect_fx()
     return [
-        {"op": "run", "names": names, "fx": fx, "nk": detect_nk(), "exprs": chain, "vals": vals},
+        {"op": "run", "names": names, "fx": fx, "nk": detect_nk(), "spec": True, "exprs": chain, "vals": vals},
         {"op": "run", "names": names, "fx": fx, "nk": detect_nk(), "vals": vals,
          "exprs": [{"k": "compose", "args": chain, "kw": [None] * len(names)}]},
     ]
@@ -396,9 +419,10 @@ def _chain_compare(case, res, replies):
             if m.get("e") != r.get("e") or m.get("phase") != r.get("phase"):
                 return f"{which}: construction: impl {r if 'e' in r else 'ok'} vs model {m if 'e' in m else 'ok'}"
             continue
-        if which == "S" and spec_wf(case) and not (m.get("namesok") and all(m.get("wf", [False]))):
-            return (f"the case is well-formed by the harness's rule (spec_wf) but outside the hypotheses of the Lean theorems: "
-                    f"NamesOK={m.get('namesok')} ChainWF per value={m.get('wf')}")
+        if which == "S":
+            msg = _spec_side(case, r, m, names)
+            if msg:
+                return msg
         mv = [from_model(x, names) for x in m["vcs"]]
         if mv != r["vcs"]:
             return f"{which}: var_context: impl {r['vcs']} vs model {mv}"
@@ -406,6 +430,58 @@ def _chain_compare(case, res, replies):
             mo = _model_out(mo, names)
             if _strip(reps[0]) != mo:
                 return f"{which}: value {case['vals'][i]}: impl {_strip(reps[0])} vs model {mo}"
+    return None
+
+
+def ref_types(e):
+    """the types an expression contributes to `compose` (Python reference of Lean `exprTypes`)"""
+    if e["k"] == "var":
+        return [e["type"]] if _is_type(e["type"]) else []
+    if e["k"] == "compose":
+        return [t for a in e["args"] for t in ref_types(a)]
+    if e["k"] == "combine":
+        t = e["kw"].get("type", "")
+        return [t] if _is_type(t) else []
+    return []
+
+
+def _spec_side(case, r, m, names):
+    """The specification-side Lean definitions (hypotheses as Boolean checks, `composeData`, `chainData`, `argsTypes`,
+    the fold of `UP` of `seqCall_result`, `Leaf.ctx`) against the real code / independent Python references."""
+    chain, vals = case["chain"], case["vals"]
+    wf = spec_wf(case)
+    if wf and not (m.get("namesok") and all(m.get("wf", [False])) and all(m.get("cok", [False]))):
+        return (f"the case is well-formed by the harness's rule (spec_wf) but outside the hypotheses of the Lean theorems: "
+                f"NamesOK={m.get('namesok')} ChainWF per value={m.get('wf')} chainOKb per value={m.get('cok')}")
+    if any(m.get("cok", [])) and not wf and not case.get("wild"):
+        pass    # chainOKb may accept more than spec_wf; nothing to compare
+    if [from_model(t, names) for t in m["stypes"]] != ref_types({"k": "compose", "args": chain, "kw": {}}):
+        return f"Lean argsTypes {m['stypes']} differs from the Python reference {ref_types({'k': 'compose', 'args': chain, 'kw': {}})}"
+    plain = all(l["getter"] not in ("variable", "notcallable") for e in chain for l in _leaves(e)) and \
+        all(x["k"] != "other" for e in chain for x in _all_exprs(e))
+    for i, (v, reps) in enumerate(zip(vals, r["outs"])):
+        o = reps[0]
+        if plain:
+            x = v["d"]
+            for e in chain:
+                x = ref_data(e, x)
+            if m["sdata"][i] != enc_data(x):
+                return f"Lean composeData {m['sdata'][i]} differs from the Python reference {enc_data(x)} on {v}"
+        if "d" in o and (m["cdata"][i] != o["d"] or (plain and m["sdata"][i] != o["d"])):
+            return f"value {v}: impl data {o['d']} vs Lean chainData {m['cdata'][i]} / composeData {m['sdata'][i]}"
+        if m["sup"][i] is not None and "c" in o:
+            sup = from_model(m["sup"][i], names)
+            var = o["c"]["d"].get("variable") if "d" in o["c"] else None
+            if sup != var:
+                return f"value {v}: impl context.variable {var} vs the fold of UP (seqCall_result) {sup}"
+    leaves_only = all(e["k"] == "var" for e in chain)
+    if leaves_only and wf and all(_is_type(e["type"]) for e in chain) and len(set(e["type"] for e in chain)) == len(chain) \
+            and not m.get("lok"):
+        return "a chain of plain variables with distinct types (spec_wf) is outside the hypothesis LeavesOK (leavesOKb false)"
+    if m.get("lok"):
+        lctx = [from_model(x, names) for x in m["lctx"]]
+        if lctx != r["vcs"]:
+            return f"var_context of the plain variables: impl {r['vcs']} vs Lean Leaf.ctx {lctx}"
     return None
 
 
@@ -600,12 +676,6 @@ def _chain_oracle(case, res):
                                 f"context.variable has {var.get(k)}")
     if "e" in S or "e" in C:
         return None
-    # ---- a Compose / Combine constructed with the keyword `name` has that name -----------------------------------
-    for e, nm in zip(chain, S["names"]):
-        if (e["k"] in ("compose", "combine") and isinstance(e["kw"].get("name"), str) and nm != e["kw"]["name"]
-                and not (e["k"] == "combine" and e["kw"].get("type") == "name")):
-            return (f"{e['k'].capitalize()}(..., name={e['kw']['name']!r}) has the name {nm!r}: the keyword that "
-                    f"'can set the name of the composed variable' was ignored")
     # ---- leaf variables carry the name and attributes they were given ----------------------------------------
     if wf:
         for e, vc in zip(chain, S["vcs"]):
@@ -853,11 +923,13 @@ def gen_cases(ctx):
     ctx.exhaustive = False
     yield from _exhaustive_cases(3)
     yield from _attr_exhaustive()
+    yield from _tok_exhaustive()
     g = _Gen(rng)
-    n_chain, n_wild, n_attr = (1200, 800, 300) if quick else (40000, 30000, 8000)
+    n_chain, n_wild, n_attr, n_tok = (1200, 800, 300, 300) if quick else (40000, 30000, 8000, 8000)
     # interleaved, so that a prefix of the thorough stream is a sample of all parts
-    total = n_chain + n_wild + n_attr
+    total = n_chain + n_wild + n_attr + n_tok
     attr = _attr_cases(rng, n_attr)
+    tok = _tok_cases(rng, n_tok)
     for i in range(total):
         r = rng.random() * total
         if r < n_chain:
@@ -868,8 +940,12 @@ def gen_cases(ctx):
             yield {"chain": chain, "vals": [g.pre_value() for _ in range(2)]}
         elif r < n_chain + n_wild:
             yield _wild_case(rng)
-        else:
+        elif r < n_chain + n_wild + n_attr:
             c = next(attr, None)
+            if c is not None:
+                yield c
+        else:
+            c = next(tok, None)
             if c is not None:
                 yield c
 
@@ -922,12 +998,10 @@ def _chain_classify(case, res):
 
 def signature(case, failure):
     """one report per kind of failure (the text before the first colon, without the variant's name)"""
-    if "keyword that 'can set the name" in (failure or ""):
-        return "name keyword ignored"
+    if _kind(case) == "tok":
+        return "tok|" + (failure or "").split(":", 1)[-1].strip()[:60].split("tokens")[0]
     if _kind(case) == "attr":
         return "attr|" + (failure or "").split(":", 1)[-1].strip()[:50]
-    if "keyword that 'can set the name" in (failure or ""):
-        return "name keyword ignored"
     head = (failure or "").split(":")[0]
     for w in ("Sequence ", "Compose "):
         if head.startswith(w):
@@ -1066,11 +1140,6 @@ def _attr_oracle(case, res):
             elif a == "zz":
                 if r.get("e") != "LenaAttributeError":
                     return f"op {i}: missing attribute var.zz gives {r}, documented: LenaAttributeError"
-            elif (e["k"] in ("compose", "combine") and a == "name" and isinstance(e["kw"].get("name"), str)
-                  and e["kw"].get("type") != "name"):
-                if r.get("r") != e["kw"]["name"]:
-                    return (f"op {i}: {e['k'].capitalize()}(..., name={e['kw']['name']!r}).name is {r}: the keyword that "
-                            f"'can set the name of the composed variable' was ignored")
             elif e["k"] == "var" and a == "name" and e["type"] != "name":
                 if r.get("r") != e["name"]:
                     return f"op {i}: var.name is {r}, the variable was constructed with name {e['name']!r}"
@@ -1155,6 +1224,222 @@ def _attr_exhaustive():
 
 
 # ---------------------------------------------------------------------------------------------
+# kind "tok": object identities (Model/C14Tok.lean)
+#   {"kind":"tok","expr":E,"val":{"d":int,"c":P|null},"reps":k}
+# The variable is applied k times, each time to the value the previous application returned.  Mutable objects
+# (dict, list) are numbered by id() in pre-order (sorted keys): first those of var_context, then those of the
+# value's context, then, step by step, the new objects in the order they appear in the result.
+
+def _is_mut(o):
+    return isinstance(o, (dict, list))
+
+
+def _tv(o, ids, alive):
+    """encode with tokens; objects not seen before get the next token"""
+    if isinstance(o, bool):
+        return {"obj": "bool"}
+    if isinstance(o, (int, str)):
+        return o
+    if isinstance(o, tuple):
+        return {"t": [_tv(x, ids, alive) for x in o]}
+    if _is_mut(o):
+        if id(o) not in ids:
+            ids[id(o)] = len(ids)
+            alive.append(o)
+        k = ids[id(o)]
+        if isinstance(o, list):
+            return {"l": [_tv(x, ids, alive) for x in o], "k": k}
+        return {"dd": {key: _tv(o[key], ids, alive) for key in sorted(o)}, "k": k}
+    return {"obj": type(o).__name__}
+
+
+def _reach(o, acc):
+    if isinstance(o, tuple):
+        for x in o:
+            _reach(x, acc)
+    elif _is_mut(o) and id(o) not in acc:
+        acc.add(id(o))
+        for x in (o.values() if isinstance(o, dict) else o):
+            _reach(x, acc)
+    return acc
+
+
+def _ref(o):
+    if _is_mut(o):
+        return ("id", id(o))
+    if isinstance(o, tuple):
+        return ("t", tuple(_ref(x) for x in o))
+    return ("v", repr(o))
+
+
+def _shallow(o):
+    if isinstance(o, dict):
+        return tuple(sorted((str(k), _ref(v)) for k, v in o.items()))
+    return tuple(_ref(v) for v in o)
+
+
+def _tok_run_impl(case):
+    try:
+        v = build(case["expr"])
+    except Exception as e:
+        return {"e": exc_name(e), "phase": "init"}
+    ids, alive = {}, []
+    res = {"vc": _tv(v.var_context, ids, alive)}
+    var_objs = set(_reach(v.var_context, set()))
+    x = _mkval(case["val"])
+    if isinstance(x, tuple):
+        _tv(x[1], ids, alive)
+    res["next"] = len(ids)
+    steps = []
+    for _ in range(case["reps"]):
+        before = {id(o): _shallow(o) for o in alive}
+        ctx_in = x[1] if isinstance(x, tuple) else None
+        frame_in = {k: (id(w) if _is_mut(w) else None, copy.deepcopy(w)) for k, w in (ctx_in or {}).items() if k != "variable"}
+        spine = set()
+        if ctx_in is not None:
+            spine.add(id(ctx_in))
+            cv = ctx_in.get("variable")
+            if isinstance(cv, dict):
+                spine.add(id(cv))
+                if isinstance(cv.get("compose"), list):
+                    spine.add(id(cv["compose"]))
+        known = len(ids)
+        try:
+            out = v(x)
+        except Exception as e:
+            steps.append({"e": exc_name(e)})
+            break
+        st = {"c": _tv(out[1], ids, alive), "erased": enc(out[1])}
+        changed = [ids[i] for i, snap in before.items() if _shallow(alive[ids[i]]) != snap]
+        st["changed"] = sorted(changed)
+        st["var_changed"] = sorted(ids[i] for i in var_objs if ids[i] in changed)
+        st["shared"] = sorted(ids[i] for i in _reach(out[1], set()) if i in var_objs)
+        st["same_ctx"] = ctx_in is None or out[1] is ctx_in
+        st["frame"] = [k for k, (i, w) in frame_in.items()
+                       if k not in out[1] or out[1][k] != w or (i is not None and id(out[1][k]) != i)] + \
+                      [k for k in out[1] if k != "variable" and k not in frame_in]
+        st["outside_spine"] = sorted(t for t in changed if t < known and alive[t] is not None and id(alive[t]) not in spine)
+        steps.append(st)
+        x = out
+    res["steps"] = steps
+    return res
+
+
+def _tok_model_requests(case):
+    names = alphabet(case)
+    v = case["val"]
+    return [{"op": "tok", "names": names, "fx": detect_fx(), "nk": detect_nk(), "expr": expr_to_model(case["expr"], names),
+             "val": {"d": v["d"], "c": None if v.get("c") is None else to_model(v["c"], names)}, "reps": case["reps"]}]
+
+
+def _tv_from_model(m, names, ren):
+    """model TV -> the harness encoding; tokens renamed by `ren` (a token seen for the first time gets the next number)"""
+    if isinstance(m, (int, str)):
+        return m
+    if "t" in m:
+        return {"t": [_tv_from_model(x, names, ren) for x in m["t"]]}
+    if m["k"] not in ren:
+        ren[m["k"]] = len(ren)
+    k = ren[m["k"]]
+    if "l" in m:
+        return {"l": [_tv_from_model(x, names, ren) for x in m["l"]], "k": k}
+    return {"dd": {names[i]: _tv_from_model(x, names, ren) for i, x in enumerate(m["d"]) if x is not None}, "k": k}
+
+
+def _tok_compare(case, res, replies):
+    names = alphabet(case)
+    m = replies[0]
+    if "err" in m:
+        return f"model driver error: {m['err']}"
+    if "e" in m or "e" in res:
+        if m.get("e") != res.get("e") or m.get("phase") != res.get("phase"):
+            return f"construction: impl {res if 'e' in res else 'ok'} vs model {m if 'e' in m else 'ok'}"
+        return None
+    ren = {i: i for i in range(m["next"])}
+    if m["next"] != res["next"] or _tv_from_model(m["vc"], names, ren) != res["vc"]:
+        return f"numbering of the objects: impl next={res['next']} vc={res['vc']} vs model next={m['next']} vc={m['vc']}"
+    if len(m["r"]) != len(res["steps"]):
+        return f"{len(res['steps'])} steps in the implementation, {len(m['r'])} in the model"
+    nexts = []
+    for i, (a, b) in enumerate(zip(res["steps"], m["r"])):
+        if "e" in a or "e" in b:
+            if a.get("e") != b.get("e"):
+                return f"step {i}: impl {a} vs model {b}"
+            nexts.append(b["e"])
+            continue
+        nexts.append(b["next"])
+        if not b["sep"]:
+            return f"step {i}: the hypothesis sepB of the token theorems does not hold on a generated case"
+        old = set(ren.values())
+        c = _tv_from_model(b["c"], names, ren)
+        if c != a["c"]:
+            return f"step {i}: identities of the result: impl {a['c']} vs model {c}"
+        if from_model(b["erased"], names) != a["erased"]:
+            return f"step {i}: erased result {b['erased']} vs impl {a['erased']}"
+        w = set(ren[t] for t in b["w"] if t in ren)
+        if not set(a["changed"]) <= w:
+            return f"step {i}: objects changed {a['changed']} but the model writes only {sorted(w)}"
+        sp = set(ren[t] for t in b["spine"] if t in ren)
+        if not set(t for t in a["changed"] if t in old) <= sp | set(t for t in w if t not in old):
+            return f"step {i}: objects changed {a['changed']}, spine {sorted(sp)}"
+    if m["calls"] != nexts:
+        return f"callsT {m['calls']} differs from the step-wise iteration {nexts}"
+    return None
+
+
+def _tok_oracle(case, res):
+    """Applying a variable changes neither the variable nor any part of the value's context other than
+    context.variable -- on the objects themselves."""
+    if "e" in res:
+        return None
+    for i, st in enumerate(res["steps"]):
+        if "e" in st:
+            continue
+        if st["var_changed"]:
+            return f"application {i + 1}: objects of the variable's var_context were changed in place: tokens {st['var_changed']}"
+        if st["shared"]:
+            return (f"application {i + 1}: the returned context shares mutable objects with the variable's var_context "
+                    f"(tokens {st['shared']}): a later change of the context changes the variable")
+        if not st["same_ctx"]:
+            return f"application {i + 1}: the returned context is not the value's context object"
+        if st["frame"]:
+            return f"application {i + 1}: keys {st['frame']} of the value's context other than 'variable' changed"
+        if st["outside_spine"]:
+            return (f"application {i + 1}: objects other than the context, the old context.variable and its compose list "
+                    f"were changed in place: tokens {st['outside_spine']}")
+    return None
+
+
+def _tok_cases(rng, n):
+    g = _Gen(rng)
+    for _ in range(n):
+        g.n = 0
+        r = rng.random()
+        if r < 0.85:
+            e = g.expr(TYPES)
+            val = g.pre_value()
+        else:
+            w = _wild_case(rng)
+            e, val = w["chain"][0], w["vals"][0]
+            if e["k"] == "other":
+                continue
+        yield {"kind": "tok", "expr": e, "val": val, "reps": rng.randint(1, 3)}
+
+
+def _tok_exhaustive():
+    cases = []
+    exprs = [_leaf(1, "", {"a": {"l": [0, 1]}}), _leaf(1, "ta", {"a": {"d": {"u": {"l": [1]}}}}),
+             {"k": "compose", "args": [_leaf(1, "ta", {"u": {"l": [7]}}), _leaf(2, "tb")], "kw": {}},
+             {"k": "compose", "args": [_leaf(1, "ta"), _leaf(2, "")], "kw": {}},
+             {"k": "combine", "args": [_leaf(1, "ta", {"u": {"l": [7]}}), _leaf(2, "")], "kw": {}},
+             {"k": "combine", "args": [_leaf(1, "ta"), _leaf(2, "tb")], "kw": {"type": "tg", "a": {"l": [1]}}}]
+    for e in exprs:
+        for val in _pre_vals():
+            cases.append({"kind": "tok", "expr": e, "val": val, "reps": 3})
+    return cases
+
+
+# ---------------------------------------------------------------------------------------------
 # dispatch on the kind of a case
 
 def _kind(case):
@@ -1162,28 +1447,34 @@ def _kind(case):
 
 
 def run_impl(case):
-    return {"attr": _attr_run_impl}.get(_kind(case), _chain_run_impl)(case)
+    return {"attr": _attr_run_impl, "tok": _tok_run_impl}.get(_kind(case), _chain_run_impl)(case)
 
 
 def model_requests(case):
-    return {"attr": _attr_model_requests}.get(_kind(case), _chain_model_requests)(case)
+    return {"attr": _attr_model_requests, "tok": _tok_model_requests}.get(_kind(case), _chain_model_requests)(case)
 
 
 def compare(case, res, replies):
-    return {"attr": _attr_compare}.get(_kind(case), _chain_compare)(case, res, replies)
+    return {"attr": _attr_compare, "tok": _tok_compare}.get(_kind(case), _chain_compare)(case, res, replies)
 
 
 def oracle(case, res):
-    return {"attr": _attr_oracle}.get(_kind(case), _chain_oracle)(case, res)
+    return {"attr": _attr_oracle, "tok": _tok_oracle}.get(_kind(case), _chain_oracle)(case, res)
 
 
 def nontrivial(case, res):
+    if _kind(case) == "tok":
+        return "e" in res or any("e" in st or st.get("changed") for st in res["steps"])
     if _kind(case) == "attr":
         return "e" in res or any("e" in r or r.get("r") is not None for r in res["r"])
     return _chain_nontrivial(case, res)
 
 
 def classify(case, res):
+    if _kind(case) == "tok":
+        if "e" in res:
+            return ["tok", "tok:init:" + res["e"]]
+        return ["tok", "tok:" + case["expr"]["k"]] + ["tok:step:" + (st["e"] if "e" in st else "ok") for st in res["steps"]]
     if _kind(case) == "attr":
         if "e" in res:
             return ["attr", "attr:init:" + res["e"]]
@@ -1196,6 +1487,19 @@ def classify(case, res):
 
 
 def shrink(case):
+    if _kind(case) == "tok":
+        if case["reps"] > 1:
+            yield dict(case, reps=case["reps"] - 1)
+        e = case["expr"]
+        if e["k"] in ("compose", "combine"):
+            for a in e["args"]:
+                if a["k"] != "other":
+                    yield dict(case, expr=a)
+        for k in list(e.get("kw", {})):
+            kw = dict(e["kw"])
+            del kw[k]
+            yield dict(case, expr=dict(e, kw=kw))
+        return
     if _kind(case) == "attr":
         ops = case["ops"]
         for i in range(len(ops)):
